@@ -1428,7 +1428,7 @@ class _TextReader:
         token = self.tok.get()
         what = token.value
         if what == "id":
-            self.id = self.tok.get_int()
+            self.id = self.tok.get_uint16()
         elif what == "flags":
             while True:
                 token = self.tok.get()
